@@ -250,6 +250,23 @@ def _contact_skips(chk, fi, fm, loop) -> None:
 
 
 
+def find_emission(fi: FuncInfo, container: str):
+    """Where the recorded tuples of `container` are turned into output objects:
+    [(iter expression, target, element expression with temporaries inlined, site)] for loops with one append and for comprehensions."""
+    out = []
+    inl = Inliner(fi.node)
+    fm = FlowMap(fi.node)
+    for n in ast.walk(fi.node):
+        if isinstance(n, ast.For) and container in astq.names(n.iter):
+            apps = [c for c in astq.calls(n, "append") if c.args]
+            if len(apps) == 1:
+                tnames = tuple(x.id for x in ast.walk(n.target) if isinstance(x, ast.Name))
+                out.append((n.iter, n.target, inl.inline(apps[0].args[0], fm.stmt_of(apps[0]), stop=tnames), n))
+        elif isinstance(n, (ast.ListComp, ast.GeneratorExp)) and len(n.generators) == 1 and container in astq.names(n.generators[0].iter) and not n.generators[0].ifs:
+            out.append((n.generators[0].iter, n.generators[0].target, n.elt, n))
+    return out
+
+
 def _eq_fields(repo, module: str, cls: str) -> Optional[set]:
     """Fields compared by `==` on instances of a dataclass (explicit __eq__: the self attributes it reads)."""
     mod = repo.module(module)
@@ -505,6 +522,10 @@ def _selection_loop(chk, fi, fm, inl, fold, c) -> None:
     for s2 in ast.walk(sl):
         if isinstance(s2, ast.Assign) and len(s2.targets) == 1 and isinstance(s2.targets[0], ast.Name) and isinstance(s2.value, ast.Tuple) and len(astq.assignments(sl, s2.targets[0].id)) == 1:
             alias[s2.targets[0].id] = norm(s2.value)
+        elif isinstance(s2, ast.Assign) and len(s2.targets) == 1 and isinstance(s2.targets[0], ast.Tuple) and isinstance(s2.value, ast.Tuple) and len(s2.targets[0].elts) == len(s2.value.elts):
+            for t2, v2 in zip(s2.targets[0].elts, s2.value.elts):
+                if isinstance(t2, ast.Name) and isinstance(v2, ast.Tuple) and len(astq.assignments(sl, t2.id)) == 1:
+                    alias[t2.id] = norm(v2)
 
     def occ_atom(text: str):
         """(key, truth-of-'key in occupied') for a membership atom, else None"""
